@@ -161,6 +161,16 @@ Fixpoint run_steps {A} (f : A -> dir -> wstate) (l : list A) (d : dir) : wstate 
                end
   end.
 
+(* thread-pool variant: every step runs (on the state left by the previous ones), the first exception
+   in list order is the one reported *)
+Fixpoint run_steps_all {A} (f : A -> dir -> wstate) (l : list A) (d : dir) : wstate :=
+  match l with
+  | [] => (d, None)
+  | x :: l' => let '(d', e) := f x d in
+               let '(d'', e') := run_steps_all f l' d' in
+               (d'', match e with Some _ => e | None => e' end)
+  end.
+
 Definition has_file (fn : str) (d : dir) : bool :=
   match alookup fn d with Some (File _ _) => true | _ => false end.
 
@@ -505,7 +515,7 @@ Section Model.
     match n with
     | Dir sdir =>
         match alookup id ws with
-        | None => copy_tree (if fix_excl cf then excluded o else fun _ => false) (o_dry_run o) id n ws
+        | None => copy_tree (o_exclude o) (o_dry_run o) id n ws     (* Project.clone: only user patterns can apply *)
         | Some (Dir ddir) =>
             let '(d', e) := sync_jobs_m o (proj_deep o) true (Some sdir) (Some ddir) JNull in
             (match d' with Some x => aset id (Dir x) ws | None => ws end, e)
@@ -514,7 +524,10 @@ Section Model.
     | File _ _ => (ws, None)
     end.
 
-  Definition sync_projects_m (o : opts) (src dst : project) : project * option exn :=
+  (* [all]: with parallel=True/int the jobs after a failing one may or may not have been processed when
+     the exception surfaces; all=false is the sequential loop (and the lower bound of what a pool does),
+     all=true the upper bound *)
+  Definition sync_projects_m (all : bool) (o : opts) (src dst : project) : project * option exn :=
     if schema_conflict o src dst then (dst, Some ESchemaSyncConflict)
     else
       let '(top', e) := sync_doc o FN_PDOC (p_top src) (p_top dst) in
@@ -522,7 +535,7 @@ Section Model.
       | Some _ => ({| p_top := top'; p_ws := p_ws dst |}, e)
       | None =>
           let jobs := filter (fun kn => job_selected o (fst kn)) (p_ws src) in
-          let '(ws', e') := run_steps (clone_or_sync o) jobs (p_ws dst) in
+          let '(ws', e') := (if all then run_steps_all else run_steps) (clone_or_sync o) jobs (p_ws dst) in
           ({| p_top := top'; p_ws := ws' |}, e')
       end.
 
@@ -534,12 +547,13 @@ Section Model.
   Definition job_dir (id : str) (ws : dir) : option dir :=
     match alookup id ws with Some (Dir d) => Some d | _ => None end.
 
-  Definition run_sync (o : opts) (en : entry) (src dst : project) : project * option exn :=
+  Definition run_sync_gen (all : bool) (o : opts) (en : entry) (src dst : project) : project * option exn :=
     match en with
-    | E_project => sync_projects_m o src dst
+    | E_project => sync_projects_m all o src dst
     | E_job sid did dsp =>
         let '(d', e) := sync_jobs_m o (o_deep o) false (job_dir sid (p_ws src)) (job_dir did (p_ws dst)) dsp in
         ({| p_top := p_top dst;
             p_ws := match d' with Some x => aset did (Dir x) (p_ws dst) | None => p_ws dst end |}, e)
     end.
+  Definition run_sync := run_sync_gen false.
 End Model.
